@@ -6,7 +6,8 @@ root = os.path.dirname(os.path.dirname(os.path.abspath(__file__)))
 repo = os.environ.get("VP_RUN_REPO")
 assert repo, "needs --with-repo"
 ct = os.path.join(root, "harness", "Cargo.toml")
-open(ct, "w").write(open(ct).read().replace('path = "/repo"', 'path = "%s"' % repo))
+txt = open(ct).read().replace('path = "/repo"', 'path = "%s"' % repo)
+open(ct, "w").write(txt)
 subprocess.run("cp /repo/Cargo.lock %s/ 2>/dev/null; cp /repo/Cargo.lock %s/harness/ 2>/dev/null" % (repo, root), shell=True)
 seeds = [int(x) for x in sys.argv[1:]] or [2, 3, 4, 5]
 out = open(os.path.join(root, "seedsweep.jsonl"), "w")
